@@ -53,3 +53,17 @@ Example C02_example :
   c02_monitor 10 C02_example_ops (run 10 100000000 30 60 600 6 C02_example_parents 2 C02_example_ops) = None /\
   map fst (chain (w_sync (w_after 10 100000000 30 60 600 6 C02_example_parents 2 C02_example_ops))) = [0; 1; 2; 10].
 Proof. vm_compute. split; reflexivity. Qed.
+
+(* the hypothesis of the theorems above is satisfiable: the example's tree and history are valid
+   with the rank function rk = id (parents are smaller than children; ids outside the table have the
+   parent id - 1) *)
+Example C02_hypothesis_satisfiable :
+  sync_valid (table_fn C02_example_parents) (fun x => x) C02_example_ops.
+Proof.
+  split; [|split].
+  - intros id Hid. unfold table_fn, C02_example_parents. cbn [find fst snd].
+    repeat (match goal with |- context [?a =? id] => destruct (Z.eqb_spec a id) end); cbn [fst snd]; lia.
+  - unfold C02_example_ops. repeat (apply Forall_cons; split); try apply Forall_nil; cbn [op_headers];
+      repeat (apply Forall_cons; split); try apply Forall_nil; try exact I; try (split; [cbn; lia|vm_compute; reflexivity]).
+  - unfold C02_example_ops. repeat (apply Forall_cons; split); try apply Forall_nil; try exact I; lia.
+Qed.
